@@ -144,8 +144,13 @@ def groupsMutators : List String :=
   ["__setitem__", "__delitem__", "clear", "update", "pop", "popitem", "setdefault", "__ior__"]
 
 /-- built-in factories that take no keyword arguments (a request with some is a TypeError) -/
-def acceptsKw (name : String) : Bool :=
-  name = "defcon.contour.flattened" || !name.startsWith "defcon."
+def noKwNames : List String :=
+  ["defcon.contour.bounds", "defcon.contour.controlPointBounds", "defcon.contour.area",
+   "defcon.component.bounds", "defcon.component.controlPointBounds", "defcon.glyph.area",
+   "defcon.groups.kerningSide1Groups", "defcon.groups.kerningSide2Groups",
+   "defcon.groups.kerningGlyphToSide1Group", "defcon.groups.kerningGlyphToSide2Group"]
+
+def acceptsKw (name : String) : Bool := !noKwNames.contains name
 
 section Structure
 variable {V : Type}
